@@ -58,7 +58,9 @@ type Chain struct {
 	BasicACL         acl.Basic
 	EACL             *eacl.Table // nil = no eACL table set for the container
 	LocalInContainer bool
-	Maintenance      bool
+	// ThreeNodes: the container spans {local, remote A, remote B} (used with remotely held objects).
+	ThreeNodes  bool
+	Maintenance bool
 	// MaintenanceSkip: the first MaintenanceSkip maintenance queries still answer false (the node
 	// enters maintenance in the middle of a stream).
 	MaintenanceSkip int
@@ -73,6 +75,9 @@ func nodeInfo(label string) netmap.NodeInfo {
 }
 
 func (c *Chain) nodeLabels() []string {
+	if c.ThreeNodes {
+		return []string{LocalNode, RemoteA, RemoteB}
+	}
 	if c.LocalInContainer {
 		return []string{LocalNode, RemoteA}
 	}
@@ -243,12 +248,19 @@ func (c *Chain) VerifyTombStoneWithoutPayload(context.Context, object.Object) er
 
 // Net is the recording "other nodes" side: every attempt to obtain a connection or to send a
 // replication request is recorded as a "net" event and fails (there is no network in this world).
-type Net struct{ Rec *Recorder }
+type Net struct {
+	Rec *Recorder
+	// Remotes are the reachable fake nodes by public key (string of the compressed key).
+	Remotes map[string]*RemoteNode
+}
 
 var ErrNoNetwork = errors.New("verif: remote node contacted (no network in svcworld)")
 
 func (n *Net) Get(_ context.Context, node netmap.NodeInfo) (clientcore.MultiAddressClient, error) {
 	n.Rec.Add("net", "ClientConstructor.Get(%x)", node.PublicKey()[:4])
+	if r, ok := n.Remotes[string(node.PublicKey())]; ok {
+		return r, nil
+	}
 	return nil, ErrNoNetwork
 }
 func (n *Net) SendReplicationRequestToNode(_ context.Context, _ []byte, node netmap.NodeInfo) ([]byte, error) {
